@@ -314,6 +314,49 @@ func main() {
 	for _, c := range cfgs {
 		scs = append(scs, harness.Scenario{Name: c.String(), Bound: bound, Body: body(c)})
 	}
+	// every operation sequence of a fixed length over a ten-letter alphabet that is forced to collide: location A
+	// (bank 0, row 0; written whole, or partially with a mask), C (same bank, other row) and D (other bank)
+	letters := []struct {
+		n string
+		o op
+	}{
+		{"WA", op{true, 0, 8, 0}}, {"RA", op{false, 0, 8, 0}}, {"Wa", op{true, 4, 4, 1}},
+		// ranges in every overlap relation with one another: a read inside A that a later write covers from below
+		// (Ra after WA), a write that starts inside A and ends past it (Wb), a read that such a write reaches into (RB)
+		{"Ra", op{false, 4, 4, 0}}, {"Wb", op{true, 6, 4, 0}}, {"RB", op{false, 8, 8, 0}},
+		{"RC", op{false, C(2), 4, 0}}, {"WC", op{true, C(2), 4, 0}},
+		{"RD", op{false, 64, 8, 0}}, {"WD", op{true, 64, 8, 0}},
+	}
+	enumLen := 3
+	if r.Thorough() {
+		enumLen = 4
+	}
+	var enum func(prefix []int)
+	enum = func(prefix []int) {
+		if len(prefix) == enumLen {
+			name, ops := "enum", []op{}
+			for _, l := range prefix {
+				name += "." + letters[l].n
+				ops = append(ops, letters[l].o)
+			}
+			for _, wd := range []int{1, 2} {
+				for _, ps := range []int{1, 2} {
+					if quick && ps == 2 {
+						continue
+					}
+					for _, rw := range rows {
+						c := cfg{2, wd, 2, 1, ps, 4, rw.log2, rw.delay, ops, name, 0}
+						scs = append(scs, harness.Scenario{Name: c.String(), Bound: 2, Body: body(c)})
+					}
+				}
+			}
+			return
+		}
+		for l := range letters {
+			enum(append(append([]int{}, prefix...), l))
+		}
+	}
+	enum(nil)
 	r.Assume = []string{
 		"accesses do not cross an interleave unit (64 B by default; 16 B and 256 B in the interleave configurations): a banked model serves one access in one bank",
 		"arrival order = order of delivery into the Top port's incoming buffer",
